@@ -96,4 +96,141 @@ def checkerRun (thr : Rat) (gate1 gate2 : Instr → Gate CRat) (n : Nat) (c1 c2 
     | none => none
   | none => none
 
+/-! ## extension (xl04): long-range layers — `apply_long_range_layer` on the tensor list
+
+  mirrors  digital/utils/mpo_utils.py::apply_long_range_layer(mpo, dag1, dag2, threshold, conjugate=…)
+    gate_ = convert_dag_to_tensor_algorithm(node)[0]; gate_mpo.custom(gate_.mpo_tensors, transpose=False)
+    if conjugate: gate_mpo.rotate(conjugate=True)                                         → `lrGateTensors`
+    sites = range(location, location + distance)   (= range(mpo.length) when the gate MPO spans the whole chain)
+    for every even gate-MPO site (not the last): the pair einsum stacks gate tensors i, i+1 on MPO tensors loc+i, loc+i+1
+       (`MpoUpdate.lrPairTop/lrPairBottom` = `thetaOf` of the two site products, C04.21), the two temporal zones of the pair,
+       `decompose_theta`; a hanging last gate tensor is stacked on its MPO tensor (`lrHangTop/Bottom`), merged with the
+       ALREADY UPDATED previous tensor, zones, `decompose_theta`                            → `lrMul` + `runSteps`
+  The code stacks the gate tensors on a pair immediately before it updates that pair; the pairs are disjoint and the hanging
+  site is only read by the last update, so the data flow is the same as stacking all gate tensors first (`lrMul`) and then
+  running the pair updates (`runSteps` over `Verdict.lrPairs`) — that is how the model is written; the tie compares the block
+  handed to every SVD and both tensors written back by every pair update with the real run.
+  `swap` is not decomposed by the code: `GateLibrary.swap` is a gate object with its own `mpo_tensors` (`extend_gate` of the
+  4×4 swap matrix, bond dimension 4) and takes exactly this path; nothing special is modelled for it.
+  The gate-MPO tensors `gate_.mpo_tensors` (output of `split_tensor`'s SVD + `extend_gate`) enter as data, like the SVDs. -/
+
+/-- one iteration of the `while` loop of `iterate` at tensor level: an `update_mpo` of `apply_layer`, or one whole
+    `apply_long_range_layer` (the gate removed from circuit `c` and the pair updates of its layer) -/
+inductive Blk where
+  | upd (s : Step)
+  | lr (c : Nat) (g : Instr) (steps : List Step)
+deriving DecidableEq, Repr
+
+/-- `location = min(gate.qubits[0]._index, gate.qubits[-1]._index)` -/
+def lrLoc (g : Instr) : Nat := min (g.qs.head?.getD 0) (g.qs.getLast?.getD 0)
+
+/-- the events of `Verdict.iterate` a block stands for -/
+def Blk.evs : Blk → List Ev
+  | .upd s => s.evs
+  | .lr c g ss => Ev.lr c g :: ss.flatMap Step.evs
+
+/-- read the pair updates of one long-range layer (one `z1:m z2:m` pair of events per entry of `ms`, in that order);
+    returns the steps and the unread events -/
+def parseLayer : List Nat → List Ev → Option (List Step × List Ev)
+  | [], evs => some ([], evs)
+  | m :: ms, Ev.zone c m1 a :: Ev.zone c' m2 b :: rest =>
+    if c = 1 ∧ c' = 2 ∧ m1 = m ∧ m2 = m then
+      match parseLayer ms rest with
+      | some r => some (⟨m, a, b⟩ :: r.1, r.2)
+      | none => none
+    else none
+  | _ :: _, _ => none
+
+/-- read an event list of `Verdict.iterate` as a sequence of blocks: `g<c>:<id>` opens a long-range layer whose pair
+    updates are at `lrPairs location distance`; anything else must be a `z1:m z2:m` pair (`stepsOf`).  `fuel` bounds the
+    number of blocks (the length of the event list suffices); `none` = the list is not of that form. -/
+def stepsOfLR : Nat → List Ev → Option (List Blk)
+  | _, [] => some []
+  | 0, _ :: _ => none
+  | k + 1, Ev.lr c g :: rest =>
+    match parseLayer (lrPairs (lrLoc g) (dist g.qs)) rest with
+    | some r =>
+      match stepsOfLR k r.2 with
+      | some bs => some (Blk.lr c g r.1 :: bs)
+      | none => none
+    | none => none
+  | k + 1, Ev.zone c m a :: Ev.zone c' m' b :: rest =>
+    if c = 1 ∧ c' = 2 ∧ m = m' then
+      match stepsOfLR k rest with
+      | some bs => some (Blk.upd ⟨m, a, b⟩ :: bs)
+      | none => none
+    else none
+  | _ + 1, _ => none
+
+section genericLR
+variable {K : Type} [Zero K] [One K] [Add K] [Mul K]
+
+/-- site-wise combination of a short chain `gs` with the first `gs.length` tensors of `ws` (the rest of `ws` is kept) -/
+def zipSites (f : Site K → Site K → Site K) : List (Site K) → List (Site K) → List (Site K)
+  | g :: gs, w :: ws => f g w :: zipSites f gs ws
+  | _, ws => ws
+
+/-- the tensors `gate_mpo` holds when they are stacked on the MPO: `gate_.mpo_tensors` for a gate of the first circuit,
+    `gate_mpo.rotate(conjugate=True)` of them for a gate of the second circuit -/
+def lrGateTensors (cj : K → K) (conj : Bool) (gm : List (Site K)) : List (Site K) :=
+  if conj then MpoConv.rotateMpo cj gm else gm
+
+/-- all gate-MPO tensors stacked on the MPO tensors at sites `loc, loc+1, …`: from above with the gate bond most significant
+    (`mulSite` = the einsums `"abcd,edfg,chij,fjkl->aebhikgl"` / `"abcd,cefg->abefdg"` + reshape, C04.21) for a gate of the first
+    circuit; from below with the MPO bond most significant (`lrHangBottom` = `mpo.rotate()`, `"…->ikhbaelg"` / `"…->febagd"`,
+    `mpo.rotate()`) for a gate of the second circuit.  `gs` are the tensors as `gate_mpo` holds them (`lrGateTensors`). -/
+def lrMul (conj : Bool) (gs : List (Site K)) (loc : Nat) (ts : List (Site K)) : List (Site K) :=
+  ts.take loc ++ zipSites (if conj then lrHangBottom else mulSite) gs (ts.drop loc)
+
+/-- `apply_long_range_layer(mpo, dag1, dag2, threshold, conjugate = (c == 2))` on the tensor list, for the gate `g` the layer
+    logic removed from circuit `c`, its gate-MPO tensors `gm = gate_.mpo_tensors`, the pair updates `ss` (sites and consumed
+    gates, from the event list) and the SVD results of those updates in call order.  `none`: the gate MPO does not have one
+    tensor per site of the gate's span or does not fit into the chain (`assert gate_mpo.length <= mpo.length`; a shorter / longer
+    tensor list would raise inside the einsums or at "Not all gate tensors were applied"), an assertion of `apply_gate`, a
+    missing SVD result. -/
+def lrLayer (cj : K → K) (d : Nat) (thr : Rat) (gate1 gate2 : Instr → Gate K) (ts : List (Site K)) (c : Nat) (g : Instr)
+    (gm : List (Site K)) (ss : List Step) (decs : List (Svd K)) : Option (List (Site K)) :=
+  if gm.length = dist g.qs ∧ lrLoc g + gm.length ≤ ts.length then
+    runSteps cj d thr gate1 gate2 (lrMul (decide (c = 2)) (lrGateTensors cj (decide (c = 2)) gm) (lrLoc g) ts) ss decs
+  else none
+
+/-- the `while` loop of `iterate` on the tensor list, long-range layers included: `gms` are the `gate_.mpo_tensors` of the
+    long-range gates in the order their layers run, `decs` the SVD results of all `decompose_theta` calls in call order -/
+def runStepsLR (cj : K → K) (d : Nat) (thr : Rat) (gate1 gate2 : Instr → Gate K) :
+    List (Site K) → List Blk → List (List (Site K)) → List (Svd K) → Option (List (Site K))
+  | ts, [], _, _ => some ts
+  | ts, Blk.upd s :: bs, gms, dec :: decs =>
+    match updateMpo cj d thr gate1 gate2 ts s dec with
+    | some ts' => runStepsLR cj d thr gate1 gate2 ts' bs gms decs
+    | none => none
+  | ts, Blk.lr c g ss :: bs, gm :: gms, decs =>
+    match lrLayer cj d thr gate1 gate2 ts c g gm ss (decs.take ss.length) with
+    | some ts' => runStepsLR cj d thr gate1 gate2 ts' bs gms (decs.drop ss.length)
+    | none => none
+  | _, Blk.upd _ :: _, _, [] => none
+  | _, Blk.lr _ _ _ :: _, [], _ => none
+
+/-- `mpo.identity(n); iterate(mpo, dag1, dag2, threshold)` for circuits of one- and two-qubit gates at any distance -/
+def iterateMpoLR (cj : K → K) (d : Nat) (thr : Rat) (gate1 gate2 : Instr → Gate K) (n : Nat) (c1 c2 : Dag)
+    (gms : List (List (Site K))) (decs : List (Svd K)) : Option (List (Site K)) :=
+  match iterate n c1 c2 (c1.length + c2.length) with
+  | .done evs =>
+    match stepsOfLR evs.length evs with
+    | some bs => runStepsLR cj d thr gate1 gate2 (identityMpo n d) bs gms decs
+    | none => none
+  | _ => none
+
+end genericLR
+
+/-- `equivalence_checker.run(circuit1, circuit2, threshold, fidelity)["equivalent"]` for circuits that may contain long-range
+    two-qubit gates and swaps -/
+def checkerRunLR (thr : Rat) (gate1 gate2 : Instr → Gate CRat) (n : Nat) (c1 c2 : Dag) (gms : List (List (Site CRat)))
+    (decs : List (Svd CRat)) (f : Rat) : Option Bool :=
+  match iterateMpoLR CRat.conj 2 thr gate1 gate2 n c1 c2 gms decs with
+  | some ts =>
+    match identityTrace CRat.conj ts with
+    | some tr => some (identityDecision tr n f)
+    | none => none
+  | none => none
+
 end Yaqs.CheckerChain
